@@ -7,6 +7,8 @@ import (
 
 	storetypes "cosmossdk.io/store/types"
 	sdk "github.com/cosmos/cosmos-sdk/types"
+	authtypes "github.com/cosmos/cosmos-sdk/x/auth/types"
+	banktypes "github.com/cosmos/cosmos-sdk/x/bank/types"
 )
 
 // C07: a deposit can neither be lost nor block the bridge; hooks are contained.
@@ -70,6 +72,7 @@ type c07Run struct {
 	Res         ExecResult
 	Evs         []L2Ev
 	HookGas     uint64
+	ZeroGas     bool // hook_max_gas = 0
 	Gas         uint64
 	HookCharges []uint64
 	Signer      uint64 // hook signer (0 = none)
@@ -114,7 +117,7 @@ func (fx *c07Fx) exec(run *c07Run) {
 	branch, _ := fx.base.CacheContext()
 	meter := &recMeter{GasMeter: storetypes.NewGasMeter(1 << 40)}
 	e.Ctx = branch.WithGasMeter(meter)
-	if run.HookGas != 0 {
+	if run.HookGas != 0 || run.ZeroGas {
 		ps, _ := e.K.GetParams(e.Ctx)
 		ps.HookMaxGas = run.HookGas
 		if err := e.K.SetParams(e.Ctx, ps); err != nil {
@@ -230,14 +233,17 @@ func (fx *c07Fx) judge(run *c07Run) {
 	creditable := run.Shape.Rcp == "valid" || (o.Amt.Sign() == 0 && (run.Shape.Rcp == "module" || run.Shape.Rcp == "blocked"))
 	guardedDepositFault := faultName == "MintCoins" || faultName == "SendCoinsFromModuleToAccount"
 	hookFault := faultName == "SendCoins" || strings.HasPrefix(faultName, "hook:")
-	hookShouldRun := creditable && !guardedDepositFault && run.Shape.Hook != "none"
+	hookKind := strings.TrimSuffix(run.Shape.Hook, "@gas0")
+	// with hook_max_gas = 0 handleBridgeHook refuses before decoding: nothing runs, the deposit is refunded
+	hookShouldRun := creditable && !guardedDepositFault && run.Shape.Hook != "none" && !run.ZeroGas
 	expectA := creditable && !guardedDepositFault &&
 		(run.Shape.Hook == "none" || ((run.Shape.Hook == "ok" || run.Shape.Hook == "wd") && !hookFault))
+	_ = hookKind
 	// only the hook signer's account sequence may move, by one
 	// ... and a well-signed hook tx that reached the ante handler CONSUMES the signer's sequence
 	// whether its messages succeed or fail (otherwise the public hook bytes can be replayed);
 	// undecodable or badly signed payloads leave it alone
-	wellSigned := map[string]bool{"fail1": true, "fail2": true, "ok": true, "wd": true, "wdfail": true}[run.Shape.Hook]
+	wellSigned := map[string]bool{"fail1": true, "fail2": true, "ok": true, "wd": true, "wdfail": true, "unroutable": true, "sendunroutable": true}[run.Shape.Hook]
 	for k := range post.AccSeq {
 		d := post.AccSeq[k] - pre.AccSeq[k]
 		if d != 0 && !(hookShouldRun && tr.Accts[k] == run.Signer && d == 1) {
@@ -344,7 +350,9 @@ func genC07(seed uint64, tier string, outdir string) *Report {
 		v *big.Int
 	}{{"0", big.NewInt(0)}, {"1", big.NewInt(1)}, {"large", large}}
 	rcps := []string{"valid", "malformed", "module", "blocked"}
-	hooks := []string{"none", "garbage", "badsig", "fail1", "fail2", "oog", "ok", "wd", "wdfail"}
+	hooks := []string{"none", "garbage", "badsig", "fail1", "fail2", "oog", "ok", "wd", "wdfail",
+		"unroutable", "sendunroutable", // a decodable message with no handler on the router (monitor-only)
+		"garbage@gas0", "badsig@gas0", "fail1@gas0", "ok@gas0", "wd@gas0"} // hook_max_gas = 0: hooks are off, payloads must be refunded
 	gasBound := map[string][2]uint64{}
 
 	for b := 0; b < nBases; b++ {
@@ -384,6 +392,17 @@ func genC07(seed uint64, tier string, outdir string) *Report {
 		hookDen := sc.L2Denoms[0]
 		mkHook := func(kind string) Hook {
 			q := e.AccSeq(signer)
+			kind = strings.TrimSuffix(kind, "@gas0")
+			// a message type that decodes (registered interface) but whose module's msg server is not on the router
+			unroutable := &authtypes.MsgUpdateParams{Authority: e.User(signer).Str, Params: authtypes.DefaultParams()}
+			switch kind {
+			case "unroutable":
+				return e.MakeHookTxMsgs(signer, q, []sdk.Msg{unroutable}, "auth MsgUpdateParams (no handler on the router)")
+			case "sendunroutable":
+				return e.MakeHookTxMsgs(signer, q, []sdk.Msg{
+					&banktypes.MsgSend{FromAddress: e.User(signer).Str, ToAddress: e.User(target).Str, Amount: sdk.Coins{coinOf(hookDen, big.NewInt(5))}},
+					unroutable}, "bank MsgSend 5 to user 5; auth MsgUpdateParams (no handler on the router)")
+			}
 			switch kind {
 			case "none":
 				return Hook{Kind: "none"}
@@ -432,8 +451,12 @@ func genC07(seed uint64, tier string, outdir string) *Report {
 					if hk == "oog" {
 						hookGas = c07SmallGas
 					}
+					zeroGas := strings.HasSuffix(hk, "@gas0")
+					if zeroGas && rc != "valid" {
+						continue
+					}
 					mk := func(failAt int, pn bool) *c07Run {
-						return &c07Run{Shape: shape, Base: b, Op: op, FailAt: failAt, Panic: pn, HookGas: hookGas,
+						return &c07Run{Shape: shape, Base: b, Op: op, FailAt: failAt, Panic: pn, HookGas: hookGas, ZeroGas: zeroGas,
 							Signer: signer, Target: target, HookAmt: 5, HookWd: 3, HookDen: hookDen}
 					}
 					// record mode
@@ -444,8 +467,14 @@ func genC07(seed uint64, tier string, outdir string) *Report {
 					rep.Ops++
 					rep.CountCase(fmt.Sprintf("%d/%v/nofault", b, shape), hk != "none" && rc == "valid")
 					rep.Hist("calls:" + fmt.Sprint(len(rec.Calls)))
-					if hk != "oog" {
-						c := &L2Case{ID: caseID, Env: e, Track: sc.Case.Track, Params: sc.Case.Params, NextL1: sc.Case.NextL1, NextL2: sc.Case.NextL2,
+					caseParams := sc.Case.Params
+					if zeroGas {
+						cp := *sc.Case.Params
+						cp.HookGas = 0
+						caseParams = &cp
+					}
+					if hk != "oog" && op.Hook.Kind != "rawtx" {
+						c := &L2Case{ID: caseID, Env: e, Track: sc.Case.Track, Params: caseParams, NextL1: sc.Case.NextL1, NextL2: sc.Case.NextL2,
 							Bals: sc.Case.Bals, Sups: sc.Case.Sups, Pairs: sc.Case.Pairs, Ops: []L2Op{op}, Obs: []Ov{rec.PostObs}}
 						texts = append(texts, c.Coq())
 					} else if rc == "valid" {
@@ -525,6 +554,7 @@ func genC07(seed uint64, tier string, outdir string) *Report {
 				Bals: sc.Case.Bals, Sups: sc.Case.Sups, Pairs: sc.Case.Pairs, Ops: []L2Op{op1, op2}, Obs: []Ov{o1, o2}}
 			texts = append(texts, c.Coq())
 		}
+		l2QueryMonitor(rep, sc.Case, "C07")
 		// random payloads (thorough): random send lists, signers, sequences
 		if tier == "thorough" {
 			for k := 0; k < 60; k++ {
